@@ -378,7 +378,8 @@ func buildDisp(cfg Sx, env *dispEnv) *restful.Container {
 					ps = append(ps, k+"="+rq.PathParameter(k))
 				}
 				_ = full
-				lg.add("H:" + itoa(rs.ID) + " " + rq.SelectedRoutePath() + " " + strings.Join(ps, ";"))
+				lg.add("H:" + itoa(rs.ID))
+				lg.add("saw:" + rq.SelectedRoutePath() + " " + strings.Join(ps, ";"))
 				runActions(hs[rs.ID], rq, rp, lg)
 			})
 			ws.Route(b)
